@@ -901,7 +901,8 @@ class C16(PropOracle):
                 self.v(w, "teardown command run after the completion flag was set", "teardown-after-flag")
             if len(same) > w.obs.completions + 1:
                 self.v(w, f"teardown command run {len(same)} times for {w.obs.completions + 1} completion(s)", "teardown-twice")
-            if not w.data.get("faulty") and not w.scen.get("refuse_scripts"):
+            hx_ = w.scen.get("hook_exit_by_kind") or {}
+            if not w.data.get("faulty") and not w.scen.get("refuse_scripts") and not hx_.get("setup") and not hx_.get("node_setup"):
                 names = {j["name"] for j in w.scen["jobs"]}
                 if not names <= h["rows"]:
                     self.v(w, f"teardown command run while jobs {sorted(names - h['rows'])} have no outcome", "teardown-early")
@@ -939,6 +940,20 @@ class C16(PropOracle):
         local = w.scen.get("mode") == "local"
         if hooks.get("setup") and cnt("setup") != 1:
             self.v(w, f"setup command run {cnt('setup')} times", "setup-count")
+        hx = w.scen.get("hook_exit_by_kind") or {}
+        if hx.get("setup") or hx.get("node_setup"):
+            # a FAILING setup / node setup command: it ran once (per batch), and nothing of what it guards was started
+            if hx.get("setup") and any(r["accepted"] and r["vp"] == "login" for r in o.sbatch_log):
+                # (a try-submit-jobs that the user runs afterwards is the user's decision, not judged here)
+                self.v(w, "submit-jobs handed a batch to the HPC although its setup command had failed", "submitted-after-failed-setup")
+            if hx.get("node_setup"):
+                for b in w.sim.batches.values():
+                    n = sum(1 for x in o.hooks if x["argv"][:2] == ["hook", "node_setup"] and x["vp"] == f"n{b.id}")
+                    if n > 1:
+                        self.v(w, f"failing node setup command run {n} times for batch {b.id}", "node_setup-count")
+                    if any(l["vp"] == f"n{b.id}" for l in o.launch_log):
+                        self.v(w, f"jobs of batch {b.id} were started although its node setup command failed", "launch-after-failed-node-setup")
+            return
         if c.get("is_complete") or local:
             ncomp = max(o.completions, 1) if not local else 1
             if any(a.get("name", "").startswith("resub") for a in w.scen.get("actors", [])) and o.completions < 2:
@@ -1217,12 +1232,18 @@ class C15(PropOracle):
         self.stage_done_at = {}
 
     def digest(self):
-        return repr((sorted(self.inits.items()), sorted(self.next_calls.items()),
+        return repr((sorted(self.inits.items()), sorted(self.next_calls.items()), sorted(self.stage_done_at),
                      (self.prev_pipeline or {}).get("stage_num"), (self.prev_pipeline or {}).get("is_complete")))
 
     def _stage_complete(self, w, k):
         c = read_json(f"{w.root}/output-stage{k}/cluster_config.json")
-        return bool(c and c.get("is_complete"))
+        if c is None:
+            # the file is being rewritten (renamed to .bk) or the rewrite failed (an injected EDQUOT): the flag that was
+            # on disk before still counts - completion is never taken back
+            return k in self.stage_done_at
+        if c.get("is_complete"):
+            self.stage_done_at.setdefault(k, True)
+        return bool(c.get("is_complete"))
 
     def _require_previous_complete(self, w, k, what):
         for p in range(1, k):
@@ -1272,6 +1293,10 @@ class C15(PropOracle):
                 self.v(w, f"submit-next-stage --stage-num={k} invoked before stage {k - 1} was marked complete", "next-stage-early")
 
     def on_transition(self, w, vp, d):
+        for rel in w.written:
+            m = re.match(r"output-stage(\d+)/cluster_config\.json$", rel)
+            if m:
+                self._stage_complete(w, int(m.group(1)))
         if "pipeline.json" not in w.written:
             return
         p = read_json(w.rootp + "pipeline.json")
